@@ -632,6 +632,8 @@ pub fn ref_ipfix_sets(b: &[u8], cache: &mut RefCache, q: &mut Q) -> Result<(Vec<
             2 => {
                 let mut r = body;
                 let mut ts = vec![];
+                let mut defs = vec![];
+                let mut well_formed = true;
                 while r.len() >= 4 {
                     let tid = r16(r, 0);
                     let cnt = r16(r, 2) as usize;
@@ -639,15 +641,26 @@ pub fn ref_ipfix_sets(b: &[u8], cache: &mut RefCache, q: &mut Q) -> Result<(Vec<
                         Some(x) => x,
                         None => break,
                     };
+                    // a record without any field of non-zero length describes no data: not a well-formed template
+                    well_formed &= fields.iter().any(|f| f.len > 0);
                     ts.push(CTpl::Plain(tid, cnt as u16, fields.iter().map(ctf_ipfix).collect()));
-                    cache.ipfix.insert(tid, RefTpl::Plain(fields));
+                    defs.push((tid, RefTpl::Plain(fields)));
                     r = &r[4 + used..];
                 }
-                RefSet::Decoded(CSet { id, len: len as u16, body: CBody::Tpl(ts, r.to_vec()) })
+                if well_formed && !ts.is_empty() {
+                    for (tid, d) in defs {
+                        cache.ipfix.insert(tid, d);
+                    }
+                    RefSet::Decoded(CSet { id, len: len as u16, body: CBody::Tpl(ts, r.to_vec()) })
+                } else {
+                    RefSet::UnknownTemplate(id)
+                }
             }
             3 => {
                 let mut r = body;
                 let mut ts = vec![];
+                let mut defs = vec![];
+                let mut well_formed = true;
                 while r.len() >= 6 {
                     let tid = r16(r, 0);
                     let cnt = r16(r, 2) as usize;
@@ -656,8 +669,9 @@ pub fn ref_ipfix_sets(b: &[u8], cache: &mut RefCache, q: &mut Q) -> Result<(Vec<
                         Some(x) => x,
                         None => break,
                     };
+                    well_formed &= fields.iter().any(|f| f.len > 0);
                     ts.push(CTpl::IpfixOpt(tid, cnt as u16, sc, fields.iter().map(ctf_ipfix).collect()));
-                    cache.ipfix.insert(tid, RefTpl::IpfixOpt(sc, fields));
+                    defs.push((tid, RefTpl::IpfixOpt(sc, fields)));
                     r = &r[6 + used..];
                     if q.on {
                         // recorded defect: only the first options template record of a set is decoded; the
@@ -668,7 +682,14 @@ pub fn ref_ipfix_sets(b: &[u8], cache: &mut RefCache, q: &mut Q) -> Result<(Vec<
                         break;
                     }
                 }
-                RefSet::Decoded(CSet { id, len: len as u16, body: CBody::OptTpl(ts, r.to_vec()) })
+                if well_formed && !ts.is_empty() {
+                    for (tid, d) in defs {
+                        cache.ipfix.insert(tid, d);
+                    }
+                    RefSet::Decoded(CSet { id, len: len as u16, body: CBody::OptTpl(ts, r.to_vec()) })
+                } else {
+                    RefSet::UnknownTemplate(id)
+                }
             }
             0..=255 => return nc("reserved set id"),
             _ => match cache.ipfix.get(&id) {
